@@ -671,6 +671,7 @@ func (fr *Frame) callContract(st *State, ct *FuncContract, fn *ssa.Function, sig
 			return nil, fmt.Errorf("ensures %s of %s: %v", cl.Label, ct.Name, err)
 		}
 		r.assume(st, g)
+		fr.rebindFromExpr(cl.E, st, env)
 	}
 	return packResults(results), nil
 }
